@@ -20,9 +20,9 @@ ASSUMPTIONS = [
     'key objects are built with __new__ and symbolic fields (the constructor calls C code); json.dumps is the identity on the dictionary it is given',
     'a value formatted into a string by C-level formatting is tracked through an indexed placeholder',
 ]
-BOUNDS = {'quick': 'every 32-byte secret; Key and HDKey objects; every history of <= 2 prior calls from {wif / wif_key, wif_private, as_dict(include_private=True), address, none}; views: public() object graph (incl. its deep copy and __reduce_ex__ state), as_dict(), as_json(), repr, str, wif_public(), public().wif()',
-          'thorough': 'histories of <= 3 prior calls'}
-OUTSIDE = 'WalletKey.public, Wallet.wif / as_dict / public_master and the database field encryption (SQLAlchemy / AES); Transaction and Address views (they hold no private fields)'
+BOUNDS = {'quick': 'every 32-byte secret; Key and HDKey objects; every history of <= 2 prior calls from {wif / wif_key, wif_private, as_dict(include_private=True), address, none}; views: public() object graph (incl. its deep copy and __reduce_ex__ state), as_dict(), as_json(), repr, str, wif_public() with and without explicit prefix / witness type, public().wif(); wallet level over a stand-in database session (arbitrary rows): repr / as_dict / public() of WalletKey, Wallet.keys(as_dict=True, <filters>), addresslist, Wallet repr / as_dict / as_json, public_master / wif(is_private=False) of single-key wallets, after <= 1 prior private export',
+          'thorough': 'histories of <= 3 prior calls (wallet level: <= 2)'}
+OUTSIDE = 'the database field encryption (SQLAlchemy type decorators / AES: C code, no symbolic reach), public_master / wif of BIP32 wallets (key derivation through the database), multisig cosigner wallets; Transaction and Address views (they hold no private fields)'
 
 
 def _mods():
@@ -87,6 +87,11 @@ VIEWS = {
     'repr': lambda k: repr(k),
     'str': lambda k: type(k).__str__(k),
     'wif_public': lambda k: k.wif_public() if hasattr(k, 'wif_public') else k.public_hex,
+    # the same public exports with the optional arguments spelled out (explicit version prefix / witness type)
+    'wif_public(prefix=xpub version bytes)': lambda k: k.wif_public(prefix=b'\x04\x88\xb2\x1e') if hasattr(k, 'wif_public') else None,
+    'wif(is_private=False, prefix=...)': lambda k: k.wif(is_private=False, prefix=b'\x04\x88\xb2\x1e') if hasattr(k, 'wif_public') else None,
+    'wif_public(witness_type=p2sh-segwit, multisig=True)': lambda k: k.wif_public(witness_type='p2sh-segwit', multisig=True) if hasattr(k, 'wif_public') else None,
+    'public().wif_public(prefix=...)': lambda k: k.public().wif_public(prefix=b'\x04\x88\xb2\x1e') if hasattr(k, 'wif_public') else None,
 }
 
 
@@ -216,6 +221,193 @@ def h_views(ex, cls, nprior, priors=None, first=None):
         ex.check(depends_on_secret(ex, t2, S), 'self-check-private-bytes-are-detected')
 
 
+# ---------------------------------------------------------------------------------------------------------------
+# wallet level: WalletKey / Wallet views over a stand-in database session (the database returns arbitrary rows)
+
+class _Row:
+    """a row object as SQLAlchemy hands it out (attribute access, __dict__ with the loaded columns)"""
+
+    def __init__(self, **kw):
+        self.__dict__.update(kw)
+        self.__dict__['_sa_instance_state'] = None
+
+
+class _Handle:
+    """database handles (session, wallet relationship): access paths to the database, not part of a view"""
+
+
+class _Query(_Handle):
+    def __init__(self, rows, kind, session=None):
+        self.rows, self.kind, self.session = rows, kind, session
+
+    def filter_by(self, **kw):
+        if 'id' in kw and self.kind in ('key', 'wallet'):
+            return _Query([r for r in self.rows if r.id == int(kw['id'])], self.kind, self.session)
+        return self
+
+    def filter(self, *a):
+        if self.kind == 'wallet':
+            return _Query([], 'wallet', self.session)            # "child wallets of this wallet": none (not a multisig wallet)
+        return self
+
+    def _same(self, *a, **k):
+        return self
+    order_by = group_by = join = distinct = limit = options = outerjoin = _same
+
+    def all(self):
+        return list(self.rows)
+
+    def first(self):
+        return self.rows[0] if self.rows else None
+
+    def scalar(self):
+        return self.rows[0] if self.rows else None
+
+    def count(self):
+        return len(self.rows)
+
+
+class _Session(_Handle):
+    def __init__(self, keys, wallets):
+        self.keys, self.wallets = keys, wallets
+
+    def query(self, *ents):
+        nm = getattr(ents[0], '__name__', None) or str(ents[0])
+        if nm == 'DbKey':
+            return _Query(self.keys, 'key', self)
+        if nm == 'DbWallet':
+            return _Query(self.wallets, 'wallet', self)
+        if 'DbKey.' in nm or 'keys.' in nm:
+            return _Query([(getattr(r, nm.split('.')[-1], None),) for r in self.keys], 'col', self)
+        return _Query([], 'other', self)
+
+    def close(self, *a, **k):
+        pass
+    commit = rollback = flush = bulk_update_mappings = bulk_save_objects = add = merge = expire_all = close
+
+
+def mk_wallet_db(ex, key_type):
+    """one wallet with two key rows whose private columns hold the secret: the master key and an address key"""
+    S = ex.bytes('secret', 32)
+    P = b'\x02' + ex.bytes('pub_x', 32)
+    chain = ex.bytes('chain', 32)
+    H = c12._H['d']
+    raw = bytes.fromhex('04b2430c') + b'\x00' + b'\x00' * 4 + b'\x00' * 4 + chain + b'\x00' + S         # zprv
+    wif = c12.B58(raw + H(raw)[:4])
+    wrow = _Row(id=1, name='w', owner='', network_name='bitcoin', purpose=84, scheme='bip32' if key_type == 'bip32' else 'single',
+                main_key_id=1, default_account_id=0, multisig_n_required=1, sort_keys=False, witness_type='segwit', encoding='bech32',
+                multisig=False, cosigner_id=None, key_path="m/purpose'/coin_type'/account'/change/address_index", parent_id=None,
+                anti_fee_sniping=True)
+    handle = _Handle()
+    handle.network_name = 'bitcoin'
+    rows = []
+    for i, (depth, path, nm) in enumerate([(0, 'm', 'w'), (5, "m/84'/0'/0'/0/0", 'address index 0')], 1):
+        rows.append(_Row(id=i, parent_id=0 if i == 1 else 1, name=nm, account_id=0, depth=depth, change=0, address_index=0, public=P, private=S,
+                         wif=wif, compressed=True, key_type=key_type, address='bc1q-address', cosigner_id=None, encoding='bech32', purpose=84,
+                         is_private=True, path=path, wallet_id=1, wallet=handle, balance=0, used=False, network_name='bitcoin', latest_txid=None,
+                         witness_type='segwit', multisig_children=[]))
+    return _Session(rows, [wrow]), S
+
+
+def _real_wallet(ex, key_type):
+    """replay: a real wallet in a scratch sqlite file whose master private key is the recorded secret"""
+    import os, tempfile
+    from bitcoinlib.wallets import Wallet
+    from bitcoinlib.keys import HDKey
+    S = bytes(ex.bytes('secret', 32))
+    d = tempfile.mkdtemp(prefix='c16w')
+    hk = HDKey(S, chain=bytes(ex.inp.get('chain', b'\x11' * 32)), witness_type='segwit') if key_type == 'bip32' else HDKey(S, key_type='single', witness_type='segwit')
+    w = Wallet.create('w', keys=hk, network='bitcoin', witness_type='segwit', db_uri='sqlite:///%s/w.db' % d)
+    if key_type == 'bip32':
+        w.get_key()
+    return w, S, d
+
+
+WPRIOR = {
+    'none': lambda w: None,
+    'main_key.key()': lambda w: w.main_key.key(),
+    'main_key.as_dict(include_private=True)': lambda w: w.main_key.as_dict(include_private=True),
+    'keys(as_dict=True, include_private=True)': lambda w: w.keys(as_dict=True, include_private=True),
+    'wif(is_private=True)': lambda w: w.wif(is_private=True),
+}
+WVIEWS = {
+    'repr(main_key)': lambda w: repr(w.main_key),
+    'main_key.as_dict()': lambda w: w.main_key.as_dict(),
+    'main_key.public() object': lambda w: w.main_key.public().__dict__,
+    'main_key.public().as_dict()': lambda w: w.main_key.public().as_dict(),
+    'repr(main_key.public())': lambda w: repr(w.main_key.public()),
+    'main_key.public().key() object': lambda w: w.main_key.public().key().__dict__,
+    'keys(as_dict=True)': lambda w: w.keys(as_dict=True),
+    'keys(as_dict=True, is_private=True)': lambda w: w.keys(as_dict=True, is_private=True),
+    'keys(as_dict=True, is_private=False)': lambda w: w.keys(as_dict=True, is_private=False),
+    'keys(as_dict=True, depth=0)': lambda w: w.keys(as_dict=True, depth=0),
+    'addresslist()': lambda w: w.addresslist(),
+    'repr(wallet)': lambda w: repr(w),
+    'as_dict()': lambda w: w.as_dict(),
+    'as_json()': lambda w: w.as_json(),
+    'wif(is_private=False) [single-key wallet]': lambda w: w.wif(is_private=False) if w.main_key.key_type == 'single' else None,
+    'public_master() object [single-key wallet]': lambda w: w.public_master().__dict__ if w.main_key.key_type == 'single' else None,
+}
+
+
+def _wleaves(ex, v, out, seen):
+    """leaves() that does not follow database handles"""
+    def strip(x, depth=0):
+        if isinstance(x, _Handle) or type(x).__name__ in ('Session', 'DbWallet', 'Engine', 'scoped_session'):
+            return None
+        if isinstance(x, dict) and depth < 6:
+            return {a: strip(b, depth + 1) for a, b in x.items()}
+        if isinstance(x, (list, tuple)) and depth < 6:
+            return [strip(b, depth + 1) for b in x]
+        if hasattr(x, '__dict__') and not isinstance(x, (SInt, SBool, SBytes, SStr, SChar, c12.B58, c04.Opaque)) and type(x).__name__ != 'Network' and depth < 6:
+            return {'__class__': type(x).__name__, **{a: strip(b, depth + 1) for a, b in x.__dict__.items()}}
+        return x
+    return strip(v)
+
+
+def h_wallet_views(ex, key_type, nprior):
+    """wallet level: after any history of private exports, the default views of WalletKey / Wallet objects (repr,
+    as_dict, as_json, public(), keys(as_dict=True, <any filter>), public_master / wif(is_private=False)) do not depend
+    on the private key stored in the database rows"""
+    K = _mods()
+    import bitcoinlib.wallets as WL
+    scratch = None
+    if ex.concrete:
+        w, S, scratch = _real_wallet(ex, key_type)
+    else:
+        session, S = mk_wallet_db(ex, key_type)
+        ex.assume(s_not(s_and(*[b == 0 for b in S])))
+        sv = shims.IntShim.from_bytes(S, 'big')
+        ex.assume(sv <= c12.N - 1)
+        w = WL.Wallet(1, session=session)
+    try:
+        for n in range(nprior):
+            WPRIOR[ex.choose('prior%d' % n, list(WPRIOR))](w)
+        view = ex.choose('view', list(WVIEWS))
+        known = kf('C16-walletkey-repr-shows-private-wif', view == 'repr(main_key)')
+        v = _wleaves(ex, WVIEWS[view](w), None, None)
+        if ex.concrete:
+            ex.check(not concrete_leak(v, bytes(S), set()), 'wallet-view-independent-of-secret', known=known)
+            return
+        terms = []
+        leaves(ex, v, terms, set())
+        ex.check(not depends_on_secret(ex, terms, S), 'wallet-view-independent-of-secret', known=known)
+        ex.sample(view=view, values_inspected=len(terms))
+    finally:
+        if scratch:
+            try:
+                w.session.close()
+            except Exception:
+                pass
+            __import__('shutil').rmtree(scratch, ignore_errors=True)
+
+
+def wsetup(ex):
+    setup(ex)
+    import bitcoinlib.wallets as WL
+    shims.install(WL, json=_FakeJson, _logger=c12.NullLog())
+
+
 def jobs(tier):
     q = tier == 'quick'
     J = []
@@ -228,4 +420,6 @@ def jobs(tier):
             for first in PRIOR:
                 J.append(Job('views_%s_after_%s' % (cls, first), h_views, W=272, setup=setup, budget_s=6000,
                              params=dict(cls=cls, nprior=3, first=first)))
+    for kt in ('bip32', 'single'):
+        J.append(Job('wallet_views_%s' % kt, h_wallet_views, W=272, setup=wsetup, budget_s=3000, params=dict(key_type=kt, nprior=1 if q else 2)))
     return J
